@@ -219,8 +219,8 @@ pub fn num_decompressor_script(
 /// that an integer model has to reproduce exactly:
 /// `kinfo lower upper gcd` (`Prefix::k_info`: `k lower_k upper_k`),
 /// `gcdbits range` (`gcd_bits_required`), `countbits n use_min_count`
-/// (`Flags::bits_to_encode_count`), and `jumpstart count n`, `maxn level n`,
-/// `runlen count n` (see `compressor::verif_train_sizing`).
+/// (`Flags::bits_to_encode_count`), and `jumpstart count n`, `maxn level n`
+/// (see `compressor::verif_train_sizing`).
 pub fn float_fns_script(op: &str, bits: usize, args: &[u128]) -> String {
   match op {
     "kinfo" => with_unsigned!(bits, U, {
@@ -245,7 +245,7 @@ pub fn float_fns_script(op: &str, bits: usize, args: &[u128]) -> String {
       };
       format!("{}", flags.bits_to_encode_count(args[0] as usize))
     }
-    "jumpstart" | "maxn" | "runlen" => {
+    "jumpstart" | "maxn" => {
       let (x, y) = crate::compressor::verif_train_sizing(op, args[0] as usize, args[1] as usize);
       format!("{} {}", x, y)
     }
